@@ -288,12 +288,17 @@ package sipsp
 //@   loop 0 "for"
 //@     invariant offs0 <= offs && offs <= len(buf) && contOK(c, offs)
 //@     invariant c.N >= len(c.Vals) ==> c.last.state != fbFIN
+//@     invariant[C09] c.N >= c_old.N && c.MaxExpires >= c_old.MaxExpires && (c_old.N > 0 ==> c.MinExpires <= c_old.MinExpires)
+//@     invariant[C09] c_old.N == 0 && c_old.MaxExpires == 0 ==> (c.N == 0 ==> c.MaxExpires == 0) && (c.N > 0 ==> c.MinExpires <= c.MaxExpires) && (c.N == 1 ==> c.MinExpires == c.MaxExpires)
 //@     split c.N < len(c.Vals)
 //@     decreases len(buf) - offs
 //@   ensures 0 <= n && n <= len(buf)
 //@   ensures err == ErrHdrOk || err == ErrHdrMoreBytes ==> offs <= n
 //@   ensures err == ErrHdrMoreBytes ==> contOK(c, n)
 //@   ensures within(c.LastHVal, len(buf))
+//@   ensures[C09] "expires-summary-widens": c.MaxExpires >= c_old.MaxExpires && (c_old.N > 0 ==> c.MinExpires <= c_old.MinExpires)
+//@   ensures[C09] "expires-summary-ordered": c_old.N == 0 && c_old.MaxExpires == 0 && c.N > 0 ==> c.MinExpires <= c.MaxExpires
+//@   ensures[C09] "expires-summary-single-value": c_old.N == 0 && c_old.MaxExpires == 0 && c.N == 1 ==> c.MinExpires == c.MaxExpires
 
 // ---- parsed URI: relocation and views (C18) ----
 
